@@ -2,6 +2,7 @@ package main
 
 import (
 	"bytes"
+	"time"
 	"encoding/json"
 	"fmt"
 	"strings"
@@ -77,8 +78,9 @@ func c16Doc(w *W, harness string, text []byte, nd bool) {
 	if len(text) == 0 {
 		return
 	}
-	kernels := []bool{false}
-	if hasAVX512 {
+	kernels := []bool{hasAVX512}
+	if hasAVX512 && w.res.Evaluations%8 == 0 {
+		// decoupling does not depend on the stage-1 kernel family: the second family on every 8th document
 		kernels = []bool{true, false}
 	}
 	for _, avx := range kernels {
@@ -114,6 +116,9 @@ func c16Doc(w *W, harness string, text []byte, nd bool) {
 			}
 		}
 		for k := range scribbleNames {
+			if len(text) > 4096 && k != 1 && k != 4 {
+				continue // large documents: two overwrite patterns
+			}
 			scribble(in, text, k)
 			if s := snapshot(pj); s != base {
 				w.Violate(Violation{Harness: harness, Fingerprint: "C16/copy-coupled", What: fmt.Sprintf("after overwriting the input buffer (%s) the copy-mode result changed: %s, before: %s", scribbleNames[k], clip(s), clip(base)), Case: append([]byte(nil), text...), Config: cfg.String(), Args: fmt.Sprint(nd)})
@@ -276,6 +281,11 @@ func c16Run(seed seedDoc, cfg Cfg, hist []c16Op) (what, fp string) {
 }
 
 func c16Body(w *W) {
+	t0 := time.Now()
+	lap := func(name string) {
+		w.Max("max_ms_"+name, time.Since(t0).Milliseconds())
+		t0 = time.Now()
+	}
 	// (a)+(b) copy decoupling over the standard document space, string-heavy documents and NDJSON
 	forEachStdDoc(w, func(name string, text []byte) {
 		if strings.HasPrefix(name, "tree/") && name != "tree/compact" && name != "tree/lf+tab" {
@@ -283,6 +293,7 @@ func c16Body(w *W) {
 		}
 		c16Doc(w, "C16-"+name, text, false)
 	})
+	lap("stddocs")
 	kinds := []string{`\n`, `\"`, `\\`, `\u0041`, `\u00e9`, `\ud83d\ude00`, "é", "😀", ""}
 	body := []byte("abcdefghijklmnopqrstuvwxyzABCDEFGHIJKLMNOPQRSTUVWXYZ0123456789abcdefghijklmnopqrstuvwxyz")
 	w.Note("string documents: 9 escape kinds at every position of every string length <= 70, as value and as key")
@@ -299,11 +310,13 @@ func c16Body(w *W) {
 			}
 		}
 	}
+	lap("strings")
 	forEachNDInput(w, func(name string, text []byte) {
 		if _, v := ref.ParseND(text); v == ref.Valid {
 			c16Doc(w, "C16-nd-"+name, text, true)
 		}
 	})
+	lap("nd")
 
 	// (c) Clone histories
 	var alpha []c16Op
@@ -363,6 +376,7 @@ func c16Body(w *W) {
 			rec(0)
 		}
 	}
+	lap("clone")
 	w.Sample("clone history sample: Clone(original, nil); SetStringBytes(40B) on original at value position #0; Clone(clone1 into original)")
 }
 
